@@ -519,7 +519,7 @@ impl Space for Padded {
 }
 
 /// Record iterators started at a non-zero offset inside their bytes.
-struct Displaced;
+pub struct Displaced;
 const DISP_K: [usize; 8] = [1, 2, 4, 16, 20, 28, 33, 4096];
 impl Space for Displaced {
     fn name(&self) -> String {
